@@ -553,7 +553,14 @@ class G:
             else:
                 ty = r.choice(list(INT_TYPES)); pos = r.choice("lr")
                 a, p = self.dec(); i = self.int_of(ty)
-                if k == 6:  # equal values
+                if k == 6 and r.random() < 0.35 and ty != "i128":
+                    # the Decimal is integral and congruent to the integer modulo 2^bits of its type, but outside the type's range
+                    # (a narrowing cast of the Decimal's integral part would call them equal)
+                    bits_ = {"u8": 8, "i8": 8, "u16": 16, "i16": 16, "u32": 32, "i32": 32, "u64": 64, "i64": 64}[ty]
+                    v = i + r.choice([1, -1, 2, 3, -2]) * 2 ** bits_
+                    p = r.choice([0, 0, 1, 3, 9])
+                    a = v * 10 ** p
+                elif k == 6:  # equal values
                     if abs(i) * 10 ** p <= MAX: a = i * 10 ** p
                 elif k == 7:  # scaling the int overflows
                     i = max(INT_TYPES[ty][0], min(INT_TYPES[ty][1], r.choice([1, -1]) * 10 ** r.randrange(18, 39)))
@@ -614,6 +621,10 @@ class G:
                     a, b = self.small(), self.small()
                 elif k == 3:
                     b = r.choice([10 ** q, -(10 ** q), 0])
+                    if r.random() < 0.5:
+                        # any power of ten as divisor (a short cut "take the trailing digits" is tempting), dividends with 38 / 39 digits
+                        b = r.choice([1, -1]) * 10 ** r.randrange(0, 39)
+                        a = r.choice([a, MAX, -MAX, 10 ** 38, 10 ** 38 + r.randrange(0, 10 ** 20), MAX - r.randrange(0, 10 ** 30)])
                 elif k == 4:  # limits of the narrower machine integers against ±1 and other tiny divisors (MIN % -1 traps)
                     w = r.choice([7, 15, 31, 63, 63, 63, 64, 32])
                     a = r.choice([-(2 ** w), 2 ** w, -(2 ** w) + 1, 2 ** w - 1, -(2 ** w) - 1])
